@@ -60,6 +60,6 @@ Definition print_measurement (m : measurement) : text :=
   ++ (if is_empty (m_db m) && is_empty (m_rp m) then [] else [46])
   ++ (if negb (is_empty (m_name m)) && is_empty (m_sysiter m) then qi [m_name m]
       else if negb (is_empty (m_sysiter m)) then qi [m_sysiter m]
-      else match m_regex m with Some r => print_regex r | None => [] end).
+      else match m_regex m with Some r => print_regex r | None => if m_istarget m then [] else [34; 34] end).
 
 End Printer.
